@@ -310,8 +310,17 @@ pub fn run(tier: &str) -> i32 {
                     };
                     let got = call(&fns.index, vec![subject_val.clone(), i.into()]);
                     let (got_lit, _) = literal(interp, &format!("{subject_lit}[{}]", int_lit(i)));
-                    acc.evals += 2;
-                    for (form, g) in [("parameter", &got), ("literal", &got_lit)] {
+                    // an array literal whose elements are not constants, indexed by a literal: the
+                    // folder may only check the index against the number of elements
+                    let got_ins = match seq {
+                        Seq::Arr(v) if !v.is_empty() => {
+                            let elems: Vec<String> = v.iter().map(|e| format!("idf({e})")).collect();
+                            literal(interp, &format!("idf := (q: any) -> any {{ return q }}; [{}][{}]", elems.join(", "), int_lit(i))).0
+                        }
+                        _ => got_lit.clone(),
+                    };
+                    acc.evals += 3;
+                    for (form, g) in [("parameter", &got), ("literal", &got_lit), ("array-of-calls", &got_ins)] {
                         acc.outcomes.insert(g.chars().take(20).collect());
                         if *g != expect {
                             acc.violations.push(Violation {
